@@ -51,6 +51,10 @@ func independentValidity(piece string) (pv pieceValidity) {
 	p.RemoveErrorListeners()
 	p.AddErrorListener(parseErr)
 	p.Dialogue()
+	// the dialogue rule has no EOF: a parse that stops before the end of the input has not accepted the input
+	if stream.LA(1) != antlr.TokenEOF {
+		parseErr.n++
+	}
 	pv.lexErrs, pv.parseErrs = lexErr.n, parseErr.n
 	pv.valid = lexErr.n == 0 && parseErr.n == 0
 	pv.hasSep = strings.Contains(piece, "---")
@@ -287,6 +291,10 @@ func invalidEdits(valid string) map[string]string {
 	out["call without parentheses"] = strings.Replace(valid, "---\n", "---\n<<call f>>\n", 1)
 	out["declare without value"] = strings.Replace(valid, "---\n", "---\n<<declare $x>>\n", 1)
 	out["two operators"] = strings.Replace(valid, "---\n", "---\n<<if 1 * / 2>>\nx\n<<endif>>\n", 1)
+	out["hashtag line between two nodes"] = valid + "#tag\n" + valid
+	out["hashtag line after the last node"] = valid + "#tag\n"
+	out["indented header after a node"] = valid + "    title: Z\n---\nz\n===\n"
+	out["indented text after the last node"] = valid + "    trailing text\n"
 	out["body end inside if"] = strings.Replace(valid, "---\n", "---\n<<if true>>\n===\n<<endif>>\n", 1)
 	return out
 }
